@@ -1258,9 +1258,23 @@ func c33RunProgs(c *Ctx, cases []c33ProgCase) {
 	results := parallelMap(len(cases), 4, func(i int) result {
 		script := c33Render(cases[i].cmds)
 		var res result
-		res.interp = c33Canon(runInterp(c, syntax.LangBash, script))
+		// A timeout can only come from a starved machine (the programs have no loops): retry.
+		for try := 0; try < 4; try++ {
+			r := runInterp(c, syntax.LangBash, script)
+			res.interp = c33Canon(r)
+			if !r.TimedOut {
+				break
+			}
+		}
 		if cases[i].bash {
-			res.bash = c33Canon(runShell(c, "bash", script))
+			for try := 0; try < 4; try++ {
+				r := runShell(c, "bash", script)
+				res.bash = c33Canon(r)
+				if !r.TimedOut && r.Status != -1 {
+					break
+				}
+				res.bash = "unavailable"
+			}
 		}
 		return res
 	})
@@ -1275,7 +1289,9 @@ func c33RunProgs(c *Ctx, cases []c33ProgCase) {
 		if got != want {
 			c.Fail(witness, fmt.Sprintf("interp prints %q, the map oracle (bash semantics) says %q; program:\n%s", got, want, c33Render(pc.cmds)))
 		}
-		if pc.bash {
+		if pc.bash && results[i].bash == "unavailable" {
+			c.Hist["bash-unavailable"]++ // bash could not be run in time (starved machine); not a verdict
+		} else if pc.bash {
 			nbash++
 			if results[i].bash != got {
 				c.Fail(witness, fmt.Sprintf("interp prints %q, bash prints %q; program:\n%s", got, results[i].bash, c33Render(pc.cmds)))
